@@ -23,6 +23,9 @@ pub fn allocate_fixed_length_string(len: usize) -> Variant {
     Variant::VString(" ".repeat(len))
 }
 
+/// The largest number of elements an array can have.
+const MAX_ARRAY_ELEMENTS: i64 = 1 << 22;
+
 pub fn allocate_array(
     dimension_args: Vec<i32>,
     element_type: &ExpressionType,
@@ -47,6 +50,14 @@ fn to_dimensions(dimension_args: Vec<i32>) -> Result<Vec<(i32, i32)>, RuntimeErr
         }
         i += 1;
         dimensions.push((lbound, ubound));
+    }
+    // an array that cannot possibly be allocated is an error of the program, not of the interpreter
+    let mut element_count: i64 = 1;
+    for (lbound, ubound) in &dimensions {
+        element_count = element_count.saturating_mul(*ubound as i64 - *lbound as i64 + 1);
+        if element_count > MAX_ARRAY_ELEMENTS {
+            return Err(RuntimeError::SubscriptOutOfRange);
+        }
     }
     Ok(dimensions)
 }
